@@ -1648,12 +1648,12 @@ func (l *Lowerer) initHasConcreteType(init parser.Expr) bool {
 // NON-partial: vec2i, vec2u, vec2f, vec2h, mat2x2f, mat2x2h, i32, u32, f32, etc.
 func isPartialConstructorName(name string) bool {
 	// vec2, vec3, vec4
-	if len(name) == 4 && name[:3] == "vec" {
+	if isVecTypeName(name) {
 		c := name[3]
 		return c >= '2' && c <= '4'
 	}
 	// mat2x2, mat2x3, ..., mat4x4
-	if len(name) == 6 && name[:3] == "mat" && name[4] == 'x' {
+	if (len(name) == 6 && isMatTypeName(name)) {
 		return name[3] >= '2' && name[3] <= '4' && name[5] >= '2' && name[5] <= '4'
 	}
 	// array (bare array constructor)
@@ -3325,7 +3325,7 @@ func (l *Lowerer) inferCompositeConstantType(construct *parser.ConstructExpr, us
 
 	// Build the concrete type
 	switch {
-	case len(named.Name) == 4 && named.Name[:3] == "vec":
+	case isVecTypeName(named.Name):
 		size := named.Name[3] - '0'
 		// Register scalar type first, matching resolveParameterizedType behavior.
 		// This ensures type ordering matches Rust naga where the scalar is registered
@@ -3335,7 +3335,7 @@ func (l *Lowerer) inferCompositeConstantType(construct *parser.ConstructExpr, us
 			Size:   ir.VectorSize(size),
 			Scalar: scalar,
 		}), nil
-	case len(named.Name) >= 5 && named.Name[:3] == "mat":
+	case isMatTypeName(named.Name):
 		cols := named.Name[3] - '0'
 		rows := named.Name[5] - '0'
 		// WGSL matrices only support float scalars. Abstract integer args
@@ -7654,7 +7654,7 @@ func (l *Lowerer) lowerConstruct(cons *parser.ConstructExpr, target *[]ir.Statem
 		// We only skip for vectors with ALL const components that include nested
 		// Compose/Splat (indicating this is an intermediate in a nested constructor).
 		if nt, ok := cons.Type.(*parser.NamedType); ok && len(nt.TypeParams) == 0 &&
-			len(nt.Name) == 4 && nt.Name[:3] == "vec" && len(components) > 0 {
+			isVecTypeName(nt.Name) && len(components) > 0 {
 			allConst := true
 			hasNestedCompose := false
 			for _, c := range components {
@@ -7907,7 +7907,7 @@ func (l *Lowerer) isMatrixScalarConstruct(cons *parser.ConstructExpr) bool {
 	}
 	name := nt.Name
 	// Check for matNxM or matNxMf patterns
-	isMatrix := (len(name) == 6 && name[:3] == "mat" && name[4] == 'x') ||
+	isMatrix := ((len(name) == 6 && isMatTypeName(name))) ||
 		(len(name) == 7 && name[:3] == "mat" && name[4] == 'x' && (name[6] == 'f' || name[6] == 'h'))
 	if !isMatrix || len(cons.Args) < 4 {
 		return false
@@ -10333,7 +10333,7 @@ func (l *Lowerer) inferConstructorTypeFromScalar(namedType *parser.NamedType, sc
 	name := namedType.Name
 
 	// Vector constructors: vec2, vec3, vec4
-	if len(name) == 4 && name[:3] == "vec" {
+	if isVecTypeName(name) {
 		size := name[3] - '0'
 		if size >= 2 && size <= 4 {
 			return l.registerType("", ir.VectorType{Size: ir.VectorSize(size), Scalar: scalar}), nil
@@ -10343,7 +10343,7 @@ func (l *Lowerer) inferConstructorTypeFromScalar(namedType *parser.NamedType, sc
 	// Matrix constructors: mat2x2, mat2x3, mat3x4, etc. (matCxR = 6 chars, skip 5-char names)
 	// WGSL spec: matrix element types are always floating-point.
 	// When scalars are inferred as int (from abstract int args), force to f32.
-	if len(name) == 6 && name[:3] == "mat" && name[4] == 'x' {
+	if (len(name) == 6 && isMatTypeName(name)) {
 		cols := name[3] - '0'
 		rows := name[5] - '0'
 		if cols >= 2 && cols <= 4 && rows >= 2 && rows <= 4 {
@@ -10543,12 +10543,12 @@ func (l *Lowerer) resolveScalarFromName(typ parser.Type) (ir.ScalarType, error) 
 
 func (l *Lowerer) isBuiltinConstructor(name string) bool {
 	// vec2, vec3, vec4 (NOT vec2f, vec2i — those are short aliases)
-	if len(name) == 4 && name[:3] == "vec" {
+	if isVecTypeName(name) {
 		return true
 	}
 	// matNxM where N,M are digits (e.g., mat2x2, mat4x3)
 	// NOT mat4x3f, mat2x2h — those are short aliases handled separately
-	if len(name) == 6 && name[:3] == "mat" && name[4] == 'x' {
+	if (len(name) == 6 && isMatTypeName(name)) {
 		return true
 	}
 	return name == "array"
@@ -10569,7 +10569,7 @@ func (l *Lowerer) lowerBuiltinConstructor(name string, args []parser.Expr, targe
 	var typeHandle ir.TypeHandle
 
 	switch {
-	case len(name) == 4 && name[:3] == "vec":
+	case isVecTypeName(name):
 		// vec2, vec3, vec4 — infer scalar type from arguments using consensus
 		size := name[3] - '0'
 		scalar, sErr := l.consensusScalarType(components)
@@ -10581,7 +10581,7 @@ func (l *Lowerer) lowerBuiltinConstructor(name string, args []parser.Expr, targe
 			Scalar: scalar,
 		})
 
-	case len(name) == 6 && name[:3] == "mat" && name[4] == 'x':
+	case (len(name) == 6 && isMatTypeName(name)):
 		// mat2x2, mat3x3, mat4x4, etc. — infer scalar type from arguments
 		cols := name[3] - '0'
 		rows := name[5] - '0'
@@ -13473,6 +13473,20 @@ func (l *Lowerer) isOpaqueResourceType(handle ir.TypeHandle) bool {
 	default:
 		return false
 	}
+}
+
+// isVecTypeName reports whether name is vec2, vec3 or vec4 (a user identifier
+// such as `vecs` merely starts like one).
+func isVecTypeName(name string) bool {
+	return len(name) == 4 && name[:3] == "vec" && name[3] >= '2' && name[3] <= '4'
+}
+
+// isMatTypeName reports whether name is matCxR, optionally with an f / h suffix.
+func isMatTypeName(name string) bool {
+	if len(name) != 6 && !(len(name) == 7 && (name[6] == 'f' || name[6] == 'h')) {
+		return false
+	}
+	return name[:3] == "mat" && name[4] == 'x' && name[3] >= '2' && name[3] <= '4' && name[5] >= '2' && name[5] <= '4'
 }
 
 // isTextureTypeName reports whether name is one of WGSL's predeclared texture
